@@ -149,6 +149,16 @@ def check(rep, ctx):
                     else:
                         rep.check(R_T, True, construct=fn, stmt=timeflow.show(d["conv"]), instance=f"{construct}|{side}")
     rep.sample({"rule": "C05-i-time", "example": "read_datetime_i64: int64 ms -> / 1000 -> fromtimestamp(float) -> replace(microsecond=0)"})
+    R_VD = rep.rule("C05-ix-reader-domain", "a scalar reader raises for no value its format carries and its Python type represents (guards of the "
+                    "returning paths evaluated at boundary values, infinities and NaNs, the extremes of timedelta and datetime)", floor=15,
+                    necessary_because="a reader that passes its result through a narrower validating type (f64 = finite floats, i64Timedelta = "
+                                      "all but the last day) rejects canonical encodings of +Infinity, NaN, or a 64-bit duration near the maximum")
+    from .wire import scalar_reader_domain_rows
+    for ok_, c_, stmt_, msg_, line_ in scalar_reader_domain_rows(W.bundle["primitives"]):
+        if ok_ is None:
+            rep.limit(f"{c_}: {msg_}")
+            continue
+        rep.check(R_VD, ok_, construct=c_, stmt=stmt_, message=msg_, file="src/kio/serial/readers.py", line=line_)
     W.finish(rep)
     rep.extra.update(classes=len(S.classes))
     rep.trusted_base += ["IEEE-754 binary64 spacing argument for T-float64/T-trunc", "datetime/timedelta constructor semantics as modelled in kverif/timeflow.py"]
